@@ -8,6 +8,7 @@ import (
 	"os"
 	"slices"
 	"strings"
+	"unicode"
 
 	"github.com/fatih/color"
 	"github.com/jstemmer/go-junit-report/v2/junit"
@@ -508,13 +509,13 @@ func (tr JUnitReporter) Publish(_ context.Context, r report.Report) error {
 				Failure: &junit.Result{
 					Message: fmt.Sprintf("%s. To learn more, see: %s", violation.Description, getDocumentationURL(violation)),
 					Type:    violation.Level,
-					Data: fmt.Sprintf("Rule: %s\nDescription: %s\nCategory: %s\nLocation: %s\nText: %s\nDocumentation: %s",
+					Data: xmlCharData(fmt.Sprintf("Rule: %s\nDescription: %s\nCategory: %s\nLocation: %s\nText: %s\nDocumentation: %s",
 						violation.Title,
 						violation.Description,
 						violation.Category,
 						violation.Location.String(),
 						text,
-						getDocumentationURL(violation)),
+						getDocumentationURL(violation))),
 				},
 			})
 		}
@@ -523,6 +524,19 @@ func (tr JUnitReporter) Publish(_ context.Context, r report.Report) error {
 	}
 
 	return testSuites.WriteXML(tr.out)
+}
+
+// xmlCharData replaces every rune that must not appear in an XML 1.0 document by U+FFFD, which is what
+// encoding/xml does for attribute values but not for CDATA sections.
+func xmlCharData(s string) string {
+	return strings.Map(func(r rune) rune {
+		if r == 0x09 || r == 0x0A || r == 0x0D ||
+			r >= 0x20 && r <= 0xD7FF || r >= 0xE000 && r <= 0xFFFD || r >= 0x10000 && r <= 0x10FFFF {
+			return r
+		}
+
+		return unicode.ReplacementChar
+	}, s)
 }
 
 func pluralize(singular string, count int) string {
